@@ -28,7 +28,6 @@ theorem header_bytes_spec (u : Kw) (data : List Nat) (h : Nat) (hr : resolve u =
   unfold headerBytes headerRow
   rw [hI]
   simp only [hlt, if_true, hget]
-  cases hh : effHeader u <;> simp_all
 
 /-- **one file, any blocksize** — given header bytes that fit the keywords (`RestOK`) and a first block that contains
     what the keywords consume (`FirstCovers`), the per-block frames exist, pandas succeeds on the whole file, the rows of
@@ -413,6 +412,35 @@ theorem csv_files_rows (u : Kw) (hm : InMatrix u) (hr : CsvOpts.resolve u = some
     simp at this
     rw [this]
 
+/-! ## the block model of `Model/Csv.lean` and the options model agree -/
+
+/-- the header bytes of the two models coincide when the first line is not blank (`Csv.headerOf` takes the first
+    PHYSICAL line, which is what the code did before fix e673923) -/
+theorem headerOf_agrees (pre rest : List Nat) (hpre : 10 ∉ pre) (hnb : isBlank pre = false) :
+    headerBytes ⟨none, false, 0⟩ (pre ++ 10 :: rest) = headerOf (pre ++ 10 :: rest) := by
+  rw [headerOf_first_line pre rest hpre]
+  have hr : CsvOpts.resolve ⟨none, false, 0⟩ = some 0 := rfl
+  have hk := pdFrame_simple ⟨none, false, 0⟩ rfl pre rest hpre hnb
+  obtain ⟨p, hp, _, hcol⟩ := header_bytes_spec ⟨none, false, 0⟩ (pre ++ 10 :: rest) 0 hr (by rw [hk]; simp)
+  rw [hk] at hcol
+  simp only [List.getElem?_cons_zero, Option.map_some, stripNL_append_NL, Option.some.injEq] at hcol
+  rw [hp, hcol]
+
+/-- **the two models read the same rows** from a file without blank lines: `readCsvRows` (block model, `csv_blocks_rows`)
+    and `readFiles` with default keywords (options model, `csv_opts_rows`), for every blocksize -/
+theorem csv_models_agree (pre rest : List Nat) (hpre : 10 ∉ pre) (hnb : isBlank pre = false)
+    (hrows : ∀ l ∈ mlines rest, isBlank l = false) (b : Nat) (hb : 0 < b) (S : Nat)
+    (hsz : (pre ++ 10 :: rest).length < 2 ^ 53) (hS : (pre ++ 10 :: rest).length < S) :
+    (readFiles ⟨none, false, 0⟩ S [pre ++ 10 :: rest] (some b)).map (fun fs => fs.flatMap (·.rows)) =
+      readCsvRows (pre ++ 10 :: rest) (some b) := by
+  obtain ⟨frames, W, h1, h2, h3, _⟩ := csv_opts_rows ⟨none, false, 0⟩ ⟨rfl, Or.inl rfl⟩ S pre rest hpre hnb b hb hsz hS
+  rw [pdFrame_simple_header _ rfl rfl pre rest hpre hnb] at h2
+  cases h2
+  rw [h1, csv_blocks_rows pre rest hpre b hb hsz, Option.map_some, h3, ← mlines_eq_lines, mlines_simple pre rest hpre]
+  simp only [List.drop_succ_cons, List.drop_zero, Option.some.injEq]
+  unfold kept
+  rw [List.drop_zero]
+  exact List.filter_eq_self.mpr (by intro l hl; simp [hrows l hl])
 /-! ## `to_csv` → `read_csv` at line level -/
 
 /-- a data line as `DataFrame.to_csv` writes it: terminated, no terminator inside, not blank -/
